@@ -116,6 +116,7 @@ impl Prop for C03 {
             expr_steps: 4,
             max_bads: 3,
             mc_bias: true,
+            wide_const_state: !use_pdr,
         ..SysCfg::default()
         };
         let case = gen_system(&mut t, &cfg);
